@@ -46,6 +46,7 @@ def run(chk, repo):
     chk.attempt(m1, chk, repo)
     chk.attempt(m2, chk, repo)
     chk.attempt(m6, chk, repo)
+    chk.attempt(m7, chk, repo)
     chk.attempt(m3, chk, repo)
     chk.attempt(m5, chk, repo)
     from .common_rules import stateless_constructs
@@ -305,6 +306,58 @@ def m6(chk, repo):
                                                                           f"so times of different records no longer agree", key=f"{fi.key}:{a}")
     if n == 0:
         chk.ok("C17-M6", "package", f"no local-time dependent conversion in {len(list(repo.all_funcs()))} functions")
+
+
+def m7(chk, repo):
+    """a time quantity is not cast to timedelta64 / datetime64 from floating-point arithmetic: `astype` truncates toward zero, so a
+    value that the binary fraction puts a hair below a whole unit comes out one unit early - for some stored instants only"""
+    chk.rule("C17-M7", "no cast to timedelta64 / datetime64 from an expression computed in floating point (the cast truncates; integer ticks are exact)", 0)
+    n = 0
+    sites = 0
+    for fi in repo.all_funcs():
+        if fi.module.name.endswith(".testing") or ".tests" in fi.module.name:
+            continue
+        flow = Flow(fi)
+        for c in calls_in(fi):
+            if not (isinstance(c.func, ast.Attribute) and c.func.attr in ("astype", "view") and c.args):
+                continue
+            t = const_str(c.args[0]) or ""
+            if isinstance(c.args[0], ast.JoinedStr):
+                t = "".join(x.value for x in c.args[0].values if isinstance(x, ast.Constant) and isinstance(x.value, str))
+            if not t.startswith(("timedelta64", "datetime64", "m8", "M8")):
+                continue
+            sites += 1
+            src = flow.expand(c.func.value, depth=4)
+            floaty = []
+            for x in ast.walk(src):
+                if isinstance(x, ast.Constant) and isinstance(x.value, float):
+                    floaty.append(repr(x.value))
+                elif isinstance(x, ast.Constant) and isinstance(x.value, str) and x.value.lstrip("<>=").startswith(("float", "f8", "f4")):
+                    floaty.append(repr(x.value))
+                elif isinstance(x, ast.BinOp) and isinstance(x.op, ast.Div):
+                    floaty.append("/")
+                elif isinstance(x, ast.Attribute) and x.attr in ("float64", "float32", "float_"):
+                    floaty.append(norm(x))
+                elif isinstance(x, ast.Name) and x.id == "float" and isinstance(getattr(x, "ctx", None), ast.Load):
+                    floaty.append("float")
+            # module-level tables of float factors referenced by name
+            for x in ast.walk(src):
+                if isinstance(x, ast.Name):
+                    r = repo.resolve_name(fi, x.id)
+                    if r.kind == "value" and len(r.exprs) == 1 and any(isinstance(y, ast.Constant) and isinstance(y.value, float) for y in ast.walk(r.exprs[0])):
+                        floaty.append(f"{x.id} (float constants)")
+            # local tables of float factors
+            for name in {x.id for x in ast.walk(src) if isinstance(x, ast.Name)}:
+                d = flow.single_def(name)
+                if d is not None and isinstance(d, (ast.Dict, ast.List, ast.Tuple)) and any(isinstance(y, ast.Constant) and isinstance(y.value, float) for y in ast.walk(d)):
+                    floaty.append(f"{name} (float constants)")
+            if floaty:
+                n += 1
+                chk.fail("C17-M7", f"{fi.module.relpath}:{fi.qualname}", f"`{short(c, 60)}` casts a value computed in floating point ({', '.join(sorted(set(floaty)))[:80]}) to {t}: "
+                         f"the cast truncates, so instants whose product falls a binary hair below a whole unit come out one unit early - the same instant no longer reads the same in every record type",
+                         key=f"{fi.key}:float-to-{t.split('[')[0]}")
+    if n == 0:
+        chk.ok("C17-M7", "package", f"{sites} casts to timedelta64 / datetime64, none from floating-point arithmetic")
 
 
 def strptime_width(fmt):
